@@ -29,6 +29,7 @@ type Scenario struct {
 	MaxOplog    int         `json:"maxOplog,omitempty"`
 	Preload     int         `json:"preload,omitempty"`  // writes before the scenario (old events, see watch)
 	EmptyStart  bool        `json:"empty,omitempty"`    // do not seed the counter document (oplog starts empty)
+	Watch       bool        `json:"watch,omitempty"`    // record oplog snapshots for the C09 monitors
 	Free        bool        `json:"free,omitempty"`     // free-running stress
 	FreeFor     int         `json:"freeMs,omitempty"`   //
 }
@@ -52,6 +53,7 @@ type Outcome struct {
 	Stalled    bool
 	Diverged   bool
 	Viols      []Viol
+	Oplog0     []*Ev    // oplog before the scenario started (seed and preloaded old events)
 	Oplog      []*Ev    // final oplog (before the teardown probe)
 	Final      []string // final contents of db.c (sorted by _id)
 	ClosedBy   bool     // the scenario itself closed the engine
@@ -63,9 +65,6 @@ type Outcome struct {
 func (o *Outcome) viol(prop, witness, what, detail string) {
 	o.Viols = append(o.Viols, Viol{prop, witness, what, detail})
 }
-
-// Prepare, if set, builds the initial catalog of a scenario (watch scenarios with old events).
-var Prepare func(sc *Scenario) *lungo.Catalog
 
 // Run executes a scenario under the controller with the given chooser, runs the C16 monitors and
 // cleans up (hook removed, engine closed).  It holds Global for its whole duration.
@@ -85,8 +84,10 @@ func Run(sc Scenario, ch Chooser) *Outcome {
 		// size-driven retention: make the age clause as permissive as the engine allows
 		wo.Opts.MinOplogAge = time.Nanosecond
 	}
-	if Prepare != nil {
-		wo.Catalog = Prepare(&sc)
+	if sc.Preload > 0 {
+		// old events (100 s in the past): the age clause of the retention never protects them
+		wo.Catalog = oldCatalog(sc.Preload, 100, !sc.EmptyStart)
+		wo.NoSeed = true
 	}
 	w, err := NewWorld(wo)
 	if err != nil {
@@ -94,8 +95,10 @@ func Run(sc Scenario, ch Chooser) *Outcome {
 		return out
 	}
 	out.W = w
+	out.Oplog0 = ReadOplog(w.Engine)
+	w.Old = out.Oplog0
 	c := NewController(w, sc.Actors, ch)
-	c.AllowCancel, c.AllowStore = sc.AllowCancel, sc.AllowStore
+	c.AllowCancel, c.AllowStore, c.PeekOplog = sc.AllowCancel, sc.AllowStore, sc.Watch
 	setHooks(c.onHook)
 	c.Run()
 	setHooks(nil)
